@@ -138,14 +138,7 @@ func runLBAff(x *X) {
 	}
 	x.Sample["config"] = fmt.Sprintf("strategy=%s backends=%d identities=%d window=%ds", strategy, nb, nIDs, window)
 	x.Logf("lbaff %s", x.Sample["config"])
-	servedBy := func(id int) string {
-		for _, e := range net.snapshot() {
-			if e.kind == "dispatch" && e.req == id {
-				return e.backend
-			}
-		}
-		return ""
-	}
+	servedBy := func(id int) string { return net.dispatchedTo(id) }
 	ejectedUntil := map[string]time.Duration{}
 	mapping := map[string]string{} // identity -> backend within the current epoch
 	var prevMapping map[string]string
